@@ -83,7 +83,7 @@ PROPS = {
                 pending=['histories that contain earlier EVALS: independent up to the D9 finding (a stored lambda charges its creator VM); proved for histories of parse / list_names calls of any outcome, and for cached parsers via C17.cache_transparent']),
     'C12': dict(obligations=lambda: P('SqProps.C12'),
                 slices=['alias'], monitors=['c12'],
-                pending=['deepcopy_iso (the copy has the same aliasing-aware canonical form as the original); independence of the copy (copy_reaches_only_new_objects, stored_copy_is_independent) is proved']),
+                pending=['the aliasing STRUCTURE of the copy (two paths to one object stay two paths to one object: the memo is a function, copy_walk_invariant) is not stated as a theorem of its own; content (stored_copy_has_same_content: equal unfoldings at every depth) and independence (stored_copy_is_independent) are proved']),
     'C13': dict(obligations=lambda: P('SqProps.C13') + P('SqProps.C13All') + P('SqProps.C13Run') + TIE_FN,
                 slices=['builtin_args'], monitors=['c13'],
                 pending=['programs that DO contain mutators or compound assignments: which objects they may change (the receiver of the mutator and nothing else) — the mutator-free case is proved over whole runs (quiet_program_changes_no_host_object), all 35 non-mutating table entries individually']),
